@@ -294,6 +294,7 @@ type Outcome struct {
 	Stacks     string
 	Fatal      bool // process must exit after reporting (leaked goroutines)
 	Log        []string
+	Trace      []string // the first events of the world (always kept; shown as a sample in evidence files)
 	Sig        string
 	Hooks      map[string]int
 	Elapsed    time.Duration // virtual
@@ -368,6 +369,15 @@ func Run(t *testing.T, o Opts, fn func(w *World)) (out Outcome) {
 		out.Sig = w.Log.Sig("tr", "cb")
 		out.Hooks = w.HookHits()
 		out.Elapsed = w.Now()
+		if !o.Quiet {
+			evs := w.Log.Snapshot()
+			if len(evs) > 36 {
+				evs = evs[:36]
+			}
+			for _, e := range evs {
+				out.Trace = append(out.Trace, e.String())
+			}
+		}
 		if len(out.Violations) > 0 {
 			out.Log = w.Log.Dump(400)
 		}
